@@ -210,9 +210,23 @@ static void do_op(int me, struct op *op)
 			if (solo) solo_begin(&m);
 			h = __cds_wfs_pop_all(&ws);
 			if (solo) solo_end(&m, me, op, 1);
-			/* walking the private list may wait for a suspended pusher: not part of the claim */
-			cds_wfs_for_each_blocking(h, it)
+			/*
+			 * Walking the private list: the non-blocking step never waits for a pusher that is
+			 * suspended half-way (it says WOULDBLOCK instead); only then is the blocking step used.
+			 */
+			for (it = cds_wfs_first(h); it != NULL; ) {
+				struct cds_wfs_node *nx;
 				uatomic_inc(&n_out);
+				if (solo) solo_begin(&m);
+				nx = cds_wfs_next_nonblocking(it);
+				if (solo) solo_end(&m, me, op, 0);
+				if (nx == CDS_WFS_WOULDBLOCK) {
+					if (solo)
+						wouldblock_rule(&m, op);
+					nx = cds_wfs_next_blocking(it);
+				}
+				it = nx;
+			}
 		} else {
 			struct cds_lfs_head *h;
 			struct cds_lfs_node *it;
